@@ -609,6 +609,27 @@ example : graphOk .u exEnv [(.cls 0, exTree)] = true := by decide
 example : ∀ n x, runU exEnv (pyLeaves exEnv) n exTree x = um exEnv (pyLeaves exEnv) n (.cls 0) x :=
   adequate_sound_unmarshal exEnv _ _ _ (by decide)
 
+/-- The marshaller tree of the same class: the union holds the non-None member only, `nullable` set. -/
+def exTreeM : Routine :=
+  .struct 0 [("val".toList, .leaf .int), ("nxt".toList, .union true [.delayed (.cls 0)])] []
+
+example : adequateM exEnv (.cls 0) exTreeM = true := by decide
+example : graphOk .m exEnv [(.cls 0, exTreeM)] = true := by decide
+example : ∀ n x, runM exEnv (pyLeaves exEnv) n exTreeM x = mar exEnv (pyLeaves exEnv) n (.cls 0) x :=
+  adequate_sound_marshal exEnv _ _ _ (by decide)
+
+/-- The hypotheses of the graph theorems are satisfiable: the denotation itself is a resolver `D`
+    that runs, for the key `Node`, the tree of `Node` (by the tree theorem), and the graph passes. -/
+example : ∀ n x, um exEnv (pyLeaves exEnv) n (.cls 0) x = um exEnv (pyLeaves exEnv) n (.cls 0) x :=
+  fun n x => graph_keys_unmarshal exEnv (pyLeaves exEnv) (um exEnv (pyLeaves exEnv)) [(.cls 0, exTree)] (by decide)
+    (by
+      intro t r hmem n x
+      simp only [List.mem_singleton, Prod.mk.injEq] at hmem
+      obtain ⟨ht, hr⟩ := hmem
+      subst ht; subst hr
+      exact (adequate_sound_unmarshal exEnv (pyLeaves exEnv) (.cls 0) exTree (by decide) n x).symm)
+    (.cls 0) exTree (by simp) n x
+
 /-- and evaluated on one (two levels of the recursive class, the member given as text): -/
 example : resEq (runU exEnv (pyLeaves exEnv) 8 exTree
       (.dict [(.str "val".toList, .str "1".toList), (.str "nxt".toList, .dict [(.str "val".toList, .int 2)])]))
